@@ -382,3 +382,84 @@ func sortedKeys(m map[string]bool) []string {
 	sort.Strings(out)
 	return out
 }
+
+// checkC18Positional: value completion of positional arguments.  A command with m positional
+// fields of a type that offers completions (and possibly a rest slice of that type), k already
+// typed values - after options, after the terminator, under PassAfterNonOption - and a partial
+// last word: the type's completions are offered exactly when the parser would bind the word to a
+// positional field (a field is still free, or the rest slice takes everything).
+func checkC18Positional(c *Ctx, n int) {
+	r := c.Rng
+	for i := 0; i < n; i++ {
+		m := 1 + r.Intn(3)
+		hasRest := r.Intn(2) == 0
+		pos := &StructDesc{}
+		for j := 0; j < m; j++ {
+			pos.Fields = append(pos.Fields, FieldDesc{Name: fmt.Sprintf("P%d", j), Exported: true, Kind: "v", Ty: "c2"})
+		}
+		if hasRest {
+			pos.Fields = append(pos.Fields, FieldDesc{Name: "Rest", Exported: true, Kind: "v", Ty: "Lc2"})
+		}
+		root := &StructDesc{Fields: []FieldDesc{
+			{Name: "V", Exported: true, Kind: "v", Ty: "bool", Tag: `short:"v" long:"verbose"`},
+			{Name: "Args", Exported: true, Kind: "s", Sub: pos, Tag: `positional-args:"yes"`},
+		}}
+		cs := &Case{Name: "app", NsDelim: ".", EnvNsDelim: "_"}
+		if r.Intn(2) == 0 {
+			cs.Opts |= flags.PassDoubleDash
+		}
+		if r.Intn(3) == 0 {
+			cs.Opts |= flags.PassAfterNonOption
+		}
+		cs.Build = append(cs.Build, BuildOp{Kind: "addgroup", Target: 1, Short: "Application Options", Struct: root})
+		k := r.Intn(m + 3)
+		var args []string
+		if r.Intn(2) == 0 {
+			args = append(args, "-v")
+		}
+		dd := cs.Opts&flags.PassDoubleDash != 0 && r.Intn(2) == 0
+		ddAt := r.Intn(k + 1)
+		for j := 0; j < k; j++ {
+			if dd && j == ddAt {
+				args = append(args, "--")
+			}
+			args = append(args, []string{"red", "blue", "green"}[r.Intn(3)])
+		}
+		if dd && ddAt == k {
+			args = append(args, "--")
+		}
+		args = append(args, "g")
+		cs.Ops = []Op{{Kind: "complete", Args: args}}
+		cs.Description = describeOps(cs)
+		c.RunCases([]*Case{cs}, func(cr *CaseResult) {
+			c.Class(fmt.Sprintf("c18/positional fields=%d rest=%v typed=%d terminator=%v", m, hasRest, k, dd))
+			c.Distinct(cs.Description)
+			compL := firstLine(cr.Impl, "COMP ")
+			if compL == "" {
+				return
+			}
+			ws := strings.Fields(compL)
+			var items []string
+			for j := 2; j < len(ws); j += 2 {
+				s, _ := unhx(ws[j])
+				items = append(items, s)
+			}
+			// under PassAfterNonOption everything after the first plain word is passed through, a later
+			// "--" included: it is then one more value
+			kEff := k
+			if dd && ddAt >= 1 && cs.Opts&flags.PassAfterNonOption != 0 {
+				kEff = k + 1
+			}
+			want := []string{}
+			if kEff < m || hasRest {
+				want = []string{"green", "grey"}
+			}
+			ok := fmt.Sprint(items) == fmt.Sprint(want) || (len(items) == 0 && len(want) == 0)
+			in := map[string]interface{}{"case": cs.Description, "args": args, "positional_fields": m, "rest_slice": hasRest, "values_typed": k}
+			if !ok {
+				in["case_file"] = c.saveCase(cr)
+			}
+			c.Check("positional-value-completions-offered-exactly-when-a-field-takes-the-word", ok, "C18:positional-completion", in, fmt.Sprintf("%q", items), fmt.Sprintf("%q", want))
+		})
+	}
+}
